@@ -12,6 +12,12 @@
 // the model receives as `now`.  Instants that are compared with each other (signing time or
 // timestamp range against NotBefore / NotAfter) are placed exactly on and one nanosecond /
 // microsecond / second off the boundaries.
+//
+// Verifier objects are long-lived (one per policy shape, reused by every case of that shape; see
+// `session`), and a dozen dedicated envelopes whose expiry / NotAfter / NotBefore lies 4 s after
+// the start of the run are verified at the start and again at the end on the same verifier
+// objects (see "long-lived verifier cases"): a verdict must follow the real clock over the
+// lifetime of a verifier.  Only for those cases the margin is relaxed to a few seconds.
 package c06
 
 import (
@@ -483,11 +489,6 @@ func genPlanRaw(r *rand.Rand) plan {
 	return p
 }
 
-type caseResult struct {
-	in  Input
-	obs Obs
-}
-
 var resMap = map[string]revresult.Result{"ok": revresult.ResultOK, "nonRevokable": revresult.ResultNonRevokable,
 	"unknown": revresult.ResultUnknown, "revoked": revresult.ResultRevoked}
 
@@ -500,14 +501,28 @@ func contains(xs []string, s string) bool {
 	return false
 }
 
-func runCase(w *world, p plan, id int) caseResult {
-	now0 := time.Now()
-	nowSec := now0.Truncate(time.Second)
-	at := func(sec int64) time.Time { return nowSec.Add(time.Duration(sec) * time.Second) }
-	// Instants are handed to the model in nanoseconds relative to an origin: `p.origin` stands for
-	// the clock reading (the model is invariant under translation of all instants - theorem
-	// `run_shift` - and a clock-independent encoding makes a case replayable from its seed).
-	rel := func(t time.Time) int64 { return p.origin + t.Sub(nowSec).Nanoseconds() }
+// prepared is a concretised plan: the envelope, the world it needs and the model input (all but `now`).
+type prepared struct {
+	p           plan
+	ref         time.Time // the instant the plan's offsets are relative to; called p.origin in the model input
+	in          Input
+	sigBlob     []byte
+	storeType   string
+	root        *x509.Certificate
+	trustStores []string
+}
+
+// rel hands an instant to the model: nanoseconds relative to the reference instant, shifted by the
+// plan's origin (the model is invariant under translation of all instants - theorem `run_shift` -
+// and a clock-independent encoding makes a case replayable from its seed).
+func (q *prepared) rel(t time.Time) int64 { return q.p.origin + t.Sub(q.ref).Nanoseconds() }
+
+// concretise mints the chain, the envelope and the countersignature of a plan whose offsets are
+// relative to ref (a whole second).
+func concretise(w *world, p plan, id int, ref time.Time) *prepared {
+	q := &prepared{p: p, ref: ref}
+	at := func(sec int64) time.Time { return ref.Add(time.Duration(sec) * time.Second) }
+	rel := q.rel
 
 	n := len(p.nb)
 	nbT, naT := make([]time.Time, n), make([]time.Time, n)
@@ -515,10 +530,12 @@ func runCase(w *world, p plan, id int) caseResult {
 		nbT[k], naT[k] = at(p.nb[k]), at(p.na[k])
 	}
 	chain := mintChain(fmt.Sprintf("c06-%d", id), nbT, naT)
+	q.root = chain.Root().Cert
 
-	scheme, storeType := schemeX509, "ca"
+	scheme := schemeX509
+	q.storeType = "ca"
 	if p.scheme == "signingAuthority" {
-		scheme, storeType = schemeSigningAuthority, "signingAuthority"
+		scheme, q.storeType = schemeSigningAuthority, "signingAuthority"
 	}
 	signingTime := at(p.signSec).Add(time.Duration(p.signNanos))
 	var expiry time.Time
@@ -536,20 +553,13 @@ func runCase(w *world, p plan, id int) caseResult {
 	}
 	env := build()
 
-	// trust stores
-	store := common.NewMemStore()
-	store.Certs[storeType+":c06"] = []*x509.Certificate{chain.Root().Cert, w.caStoreTS.Root.Cert}
-	store.Certs["tsa:c06tsa"] = []*x509.Certificate{w.tsaA.Root.Cert}
-	store.Certs["tsa:other"] = []*x509.Certificate{w.tsaB.Root.Cert}
-	store.Empty["tsa:empty"] = true
-	store.Errs["tsa:broken"] = errors.New("scripted load failure")
-	trustStores := []string{storeType + ":c06"}
+	q.trustStores = []string{q.storeType + ":c06"}
 	for _, s := range p.stores {
-		trustStores = append(trustStores, "tsa:"+s)
+		q.trustStores = append(q.trustStores, "tsa:"+s)
 	}
 	if len(p.stores) > 0 && id%3 == 0 {
 		// the position of the tsa entries must not matter
-		trustStores = append(trustStores[1:], trustStores[0])
+		q.trustStores = append(q.trustStores[1:], q.trustStores[0])
 	}
 
 	in := Input{Scheme: p.scheme, SigningTime: rel(signingTime), Option: p.option,
@@ -594,10 +604,82 @@ func runCase(w *world, p plan, id int) caseResult {
 			TsaCertOk:     purposeOK && !p.badSig && validAt(tsa.Leaf.Cert) && validAt(tsa.Root.Cert),
 			ChainRulesOk:  p.token != "badKU"}
 	}
-	sigBlob := env.WithTimestamp(token)
+	q.sigBlob = env.WithTimestamp(token)
+	q.in = in
+	return q
+}
 
-	rev := &common.ScriptedRevocation{}
-	rev.Results = func(c []*x509.Certificate) ([]*revresult.CertRevocationResult, error) {
+// ociVerifier is what verifier.NewVerifierWithOptions returns, as far as the harness needs it.
+type ociVerifier interface {
+	Verify(ctx context.Context, desc ocispec.Descriptor, signature []byte, opts notation.VerifierVerifyOptions) (*notation.VerificationOutcome, error)
+}
+
+// session keeps verifier objects alive: one verifier is built per policy shape (trust store list x
+// verifyTimestamp option) and reused by every later case with the same shape, over one trust store
+// and one timestamping revocation validator whose contents are re-scripted for every case.  Any
+// per-instance memoisation in the verifier (of the clock, of a chain's validity, of a timestamp
+// result) therefore shows up as a disagreement with the model.
+type session struct {
+	w         *world
+	store     *common.MemStore
+	rev       *common.ScriptedRevocation
+	verifiers map[string]ociVerifier
+	uses      map[string]int
+}
+
+func newSession(w *world) *session {
+	s := &session{w: w, store: common.NewMemStore(), rev: &common.ScriptedRevocation{}, verifiers: map[string]ociVerifier{}, uses: map[string]int{}}
+	s.store.Certs["tsa:c06tsa"] = []*x509.Certificate{w.tsaA.Root.Cert}
+	s.store.Certs["tsa:other"] = []*x509.Certificate{w.tsaB.Root.Cert}
+	s.store.Empty["tsa:empty"] = true
+	s.store.Errs["tsa:broken"] = errors.New("scripted load failure")
+	return s
+}
+
+func (s *session) newVerifier(trustStores []string, option string) ociVerifier {
+	sv := trustpolicy.SignatureVerification{VerificationLevel: "strict",
+		Override: map[trustpolicy.ValidationType]trustpolicy.ValidationAction{
+			trustpolicy.TypeExpiry:             trustpolicy.ActionLog,
+			trustpolicy.TypeAuthenticTimestamp: trustpolicy.ActionLog,
+			trustpolicy.TypeRevocation:         trustpolicy.ActionSkip,
+		}}
+	if option != "unset" {
+		sv.VerifyTimestamp = trustpolicy.TimestampOption(option)
+	}
+	doc := &trustpolicy.OCIDocument{Version: "1.0", TrustPolicies: []trustpolicy.OCITrustPolicy{{
+		Name: "c06", RegistryScopes: []string{"*"}, SignatureVerification: sv,
+		TrustStores: append([]string{}, trustStores...), TrustedIdentities: []string{"*"},
+	}}}
+	v, err := verifier.NewVerifierWithOptions(s.store, verifier.VerifierOptions{OCITrustPolicy: doc, RevocationTimestampingValidator: s.rev})
+	if err != nil {
+		panic(err)
+	}
+	return v
+}
+
+// verifierFor returns the long-lived verifier of the policy shape, or a brand-new one.
+func (s *session) verifierFor(q *prepared, fresh bool) ociVerifier {
+	if fresh {
+		return s.newVerifier(q.trustStores, q.p.option)
+	}
+	key := fmt.Sprint(q.trustStores, q.p.option)
+	v, ok := s.verifiers[key]
+	if !ok {
+		v = s.newVerifier(q.trustStores, q.p.option)
+		s.verifiers[key] = v
+	}
+	s.uses[key]++
+	return v
+}
+
+// execute runs the real verifier.Verify on the prepared case and observes the two results.
+// It returns the clock readings taken immediately before and after the call.
+func (s *session) execute(q *prepared, fresh bool) (Obs, time.Time, time.Time) {
+	p := q.p
+	s.store.Reset()
+	s.store.Certs[q.storeType+":c06"] = []*x509.Certificate{q.root, s.w.caStoreTS.Root.Cert}
+	s.rev.Calls = nil
+	s.rev.Results = func(c []*x509.Certificate) ([]*revresult.CertRevocationResult, error) {
 		if p.revErr {
 			return nil, errors.New("scripted validator failure")
 		}
@@ -610,34 +692,11 @@ func runCase(w *world, p plan, id int) caseResult {
 		}
 		return out, nil
 	}
-
-	sv := trustpolicy.SignatureVerification{VerificationLevel: "strict",
-		Override: map[trustpolicy.ValidationType]trustpolicy.ValidationAction{
-			trustpolicy.TypeExpiry:             trustpolicy.ActionLog,
-			trustpolicy.TypeAuthenticTimestamp: trustpolicy.ActionLog,
-			trustpolicy.TypeRevocation:         trustpolicy.ActionSkip,
-		}}
-	if p.option != "unset" {
-		sv.VerifyTimestamp = trustpolicy.TimestampOption(p.option)
-	}
-	doc := &trustpolicy.OCIDocument{Version: "1.0", TrustPolicies: []trustpolicy.OCITrustPolicy{{
-		Name: "c06", RegistryScopes: []string{"*"}, SignatureVerification: sv,
-		TrustStores: trustStores, TrustedIdentities: []string{"*"},
-	}}}
-	v, err := verifier.NewVerifierWithOptions(store, verifier.VerifierOptions{OCITrustPolicy: doc, RevocationTimestampingValidator: rev})
-	if err != nil {
-		panic(err)
-	}
-
-	// The model's `now` is the clock reading at the start of the case, truncated to the second;
-	// the code reads its own clock some milliseconds later (bounded by the 20 s guard below), and
-	// everything it compares with that reading is at least 60 s away from `now`.
-	in.Now = rel(nowSec)
-	outcome, verr := v.Verify(context.Background(), target, sigBlob, notation.VerifierVerifyOptions{
+	v := s.verifierFor(q, fresh)
+	before := time.Now()
+	outcome, verr := v.Verify(context.Background(), target, q.sigBlob, notation.VerifierVerifyOptions{
 		ArtifactReference: "reg.example/c06@" + target.Digest.String(), SignatureMediaType: common.MediaJWS})
-	if d := time.Since(now0); d > 20*time.Second {
-		panic(fmt.Sprintf("c06: a case took %v, the clock margins are no longer safe", d))
-	}
+	after := time.Now()
 	if outcome == nil {
 		panic(fmt.Sprintf("c06: nil outcome: %v", verr))
 	}
@@ -661,7 +720,140 @@ func runCase(w *world, p plan, id int) caseResult {
 	if verr != nil {
 		panic(fmt.Sprintf("c06: verification error although both validations only log: %v", verr))
 	}
-	return caseResult{in, o}
+	return o, before, after
+}
+
+// runCase is an ordinary case: the plan is placed around the harness's clock reading (truncated to
+// the second), which is what the model receives as `now`; the code reads its own clock some
+// milliseconds later (bounded by the 20 s guard), and everything it compares with that reading is
+// at least 60 s away from `now`.
+func runCase(s *session, p plan, id int) (Input, Obs) {
+	now0 := time.Now()
+	q := concretise(s.w, p, id, now0.Truncate(time.Second))
+	o, _, after := s.execute(q, id%10 == 9)
+	if d := after.Sub(now0); d > 20*time.Second {
+		panic(fmt.Sprintf("c06: a case took %v, the clock margins are no longer safe", d))
+	}
+	q.in.Now = q.rel(q.ref)
+	return q.in, o
+}
+
+// ---- long-lived verifier cases ------------------------------------------------------------------
+//
+// "Does the verdict follow the real clock over the lifetime of ONE verifier object?"  At the start
+// of Run (reference instant T, a whole second) a few envelopes are minted whose expiry, or a
+// certificate's NotAfter / NotBefore, is F = T + 4 s.  Each is verified at once on a long-lived
+// verifier (phase 1: the code's clock is in [T, T+2.5 s), the model gets now = T), the ordinary
+// case stream runs on the same verifier objects, and at the end - not before T + 7 s - each is
+// verified again on the SAME verifier and on a brand-new one (phase 2: the code's clock is at least
+// T + 7 s, the model gets now = T + 7 s).  Expired / not-yet-valid verdicts must have flipped.
+// For these few cases the 60 s margin is deliberately relaxed: 1.5 s .. 4 s in phase 1, at least 3 s
+// in phase 2; all other instants are 10 days away.  They say nothing about boundaries.  A case whose
+// margin shrank below 1.5 s because the machine stalled is skipped and counted.
+
+const (
+	llFlip   = 4 // F - T, seconds
+	llPhase2 = 7 // model's `now` of phase 2, seconds after T
+)
+
+type longLived struct {
+	name string
+	q    *prepared
+}
+
+func longLivedPlans() []struct {
+	name string
+	p    plan
+} {
+	wide := func(n int) ([]int64, []int64) {
+		nb, na := make([]int64, n), make([]int64, n)
+		for k := range nb {
+			nb[k], na[k] = -10*day, 10*day
+		}
+		return nb, na
+	}
+	mk := func(scheme string, stores []string, option string, n int, edit func(p *plan)) plan {
+		p := plan{scheme: scheme, stores: stores, option: option, signSec: -3600, token: "none", rev: []string{"ok", "ok"}, focus: "longLived"}
+		p.nb, p.na = wide(n)
+		edit(&p)
+		return p
+	}
+	f := int64(llFlip)
+	expiry := func(p *plan) { p.expiry = &f }
+	leafNA := func(p *plan) { p.na[0] = f }
+	rootNA := func(p *plan) { p.na[len(p.na)-1] = f }
+	leafNB := func(p *plan) { p.nb[0] = f }
+	token := func(p *plan) { p.token, p.genSec, p.accS = "A", -60, 1 }
+	both := func(fs ...func(*plan)) func(*plan) {
+		return func(p *plan) {
+			for _, g := range fs {
+				g(p)
+			}
+		}
+	}
+	none, tsa := []string{}, []string{"c06tsa"}
+	return []struct {
+		name string
+		p    plan
+	}{
+		{"noTsa/expiry", mk("x509", none, "unset", 2, expiry)},
+		{"noTsa/leafNotAfter", mk("x509", none, "unset", 2, leafNA)},
+		{"noTsa/rootNotAfter", mk("x509", none, "unset", 3, rootNA)},
+		{"noTsa/leafNotBefore", mk("x509", none, "unset", 2, leafNB)},
+		{"always/expiry", mk("x509", tsa, "always", 2, both(expiry, token))},
+		{"always/leafNotAfter+token", mk("x509", tsa, "always", 2, both(leafNA, token))},
+		{"afterCertExpiry/expiry", mk("x509", tsa, "afterCertExpiry", 1, expiry)},
+		{"afterCertExpiry/leafNotAfter", mk("x509", tsa, "afterCertExpiry", 2, leafNA)},
+		{"afterCertExpiry/rootNotAfter+token", mk("x509", tsa, "afterCertExpiry", 2, both(rootNA, token))},
+		{"afterCertExpiry/leafNotBefore", mk("x509", tsa, "afterCertExpiry", 2, leafNB)},
+		{"unset+tsa/expiry+leafNotAfter+token", mk("x509", tsa, "unset", 2, both(expiry, leafNA, token))},
+		{"signingAuthority/expiry", mk("signingAuthority", none, "unset", 2, expiry)},
+	}
+}
+
+// startLongLived mints the envelopes and runs phase 1.
+func startLongLived(c *common.Ctx, s *session) (time.Time, []longLived) {
+	T := time.Now().Truncate(time.Second)
+	var out []longLived
+	for k, x := range longLivedPlans() {
+		q := concretise(s.w, x.p, 1000000+k, T)
+		o, _, after := s.execute(q, false)
+		out = append(out, longLived{x.name, q})
+		if after.Sub(T) > 2500*time.Millisecond {
+			c.Count("longLived=skipped(phase1 too late)")
+			continue
+		}
+		in := q.in
+		in.Now = q.rel(T)
+		c.Emit(in, o)
+		c.Count("longLived=phase1")
+	}
+	return T, out
+}
+
+// finishLongLived waits for phase 2 and verifies again on the same verifiers and on fresh ones.
+func finishLongLived(c *common.Ctx, s *session, T time.Time, cases []longLived) {
+	P2 := T.Add(llPhase2 * time.Second)
+	if d := time.Until(P2.Add(50 * time.Millisecond)); d > 0 {
+		time.Sleep(d)
+	}
+	for _, x := range cases {
+		for _, fresh := range []bool{false, true} {
+			o, before, after := s.execute(x.q, fresh)
+			if before.Before(P2) || after.Sub(P2) > time.Hour {
+				c.Count("longLived=skipped(phase2 clock)")
+				continue
+			}
+			in := x.q.in
+			in.Now = x.q.rel(P2)
+			c.Emit(in, o)
+			if fresh {
+				c.Count("longLived=phase2 fresh verifier (control)")
+			} else {
+				c.Count("longLived=phase2 same verifier")
+			}
+		}
+	}
 }
 
 // selfCheck validates the hand-written assemblers against the libraries directly: the JWS
@@ -739,21 +931,28 @@ func Run(c *common.Ctx) error {
 	if err := selfCheck(w); err != nil {
 		return err
 	}
+	s := newSession(w)
+	T, ll := startLongLived(c, s)
 	total := 2500
 	if c.Thorough() {
 		total = 24000
 	}
 	for id := 0; id < total; id++ {
 		p := genPlan(c.Rand)
-		res := runCase(w, p, id)
-		c.Emit(res.in, res.obs)
+		in, obs := runCase(s, p, id)
+		c.Emit(in, obs)
 		c.Count("scheme=" + p.scheme)
 		c.Count("option=" + p.option)
 		c.Count("focus=" + p.focus)
 		c.Count(fmt.Sprintf("chainLen=%d", len(p.nb)))
 		c.Count(fmt.Sprintf("tsaStores=%v", p.stores))
-		c.Count(fmt.Sprintf("expiryFailed=%v", res.obs.ExpiryFailed))
-		c.Count(fmt.Sprintf("scheme=%s authTsFailed=%v", p.scheme, res.obs.AuthTsFailed))
+		c.Count(fmt.Sprintf("expiryFailed=%v", obs.ExpiryFailed))
+		c.Count(fmt.Sprintf("scheme=%s authTsFailed=%v", p.scheme, obs.AuthTsFailed))
+		if id%10 == 9 {
+			c.Count("verifier=fresh")
+		} else {
+			c.Count("verifier=reused")
+		}
 		if p.expiry == nil {
 			c.Count("expiry=absent")
 		} else if *p.expiry < 0 {
@@ -766,6 +965,15 @@ func Run(c *common.Ctx) error {
 			c.Count("range=" + p.rangeKind)
 		}
 	}
-	c.Note("random product of: scheme x chain length 1..4 with independent per-certificate windows (valid / one expired / one not yet valid / mixed / barely valid at 60 s / expired long ago) x signing time on, one ns / one s off and far from the window boundaries x expiry absent / past / future x tsa store listings (none, listed, other, both, empty, failing, duplicate; any position) x verifyTimestamp unset/always/afterCertExpiry x countersignature (absent, garbage, good, 16 single faults, double faults) x time range (inside, on the boundaries, 1 us / 1 ms / 1 s outside, before, after, huge accuracy, baseline-policy default accuracy); hand-assembled ES256 JWS envelopes, local RFC 3161 TSA, real verifier.Verify with expiry/authenticTimestamp set to log. `now` is the harness's clock reading; everything compared with the clock is at least 60 s away from it")
+	finishLongLived(c, s, T, ll)
+	maxUses := 0
+	for _, n := range s.uses {
+		if n > maxUses {
+			maxUses = n
+		}
+	}
+	c.Note("random product of: scheme x chain length 1..4 with independent per-certificate windows (valid / one expired / one not yet valid / mixed / barely valid at 60 s / expired long ago) x signing time on, one ns / one s off and far from the window boundaries x expiry absent / past / future x tsa store listings (none, listed, other, both, empty, failing, duplicate; any position) x verifyTimestamp unset/always/afterCertExpiry x countersignature (absent, garbage, good, 16 single faults, double faults) x time range (inside, on the boundaries, 1 us / 1 ms / 1 s outside, before, after, huge accuracy, baseline-policy default accuracy); hand-assembled ES256 JWS envelopes, local RFC 3161 TSA, real verifier.Verify with expiry/authenticTimestamp set to log. `now` is the harness's clock reading; everything compared with the clock is at least 60 s away from it.")
+	c.Note("verifier objects are long-lived: one per policy shape (%d shapes, the busiest used %d times), reused by all cases of that shape over one re-scripted trust store / revocation validator; every tenth case uses a brand-new verifier.", len(s.verifiers), maxUses)
+	c.Note("long-lived-verifier cases (%d envelopes): expiry / NotAfter / NotBefore = T+4 s, verified on a long-lived verifier at T (phase 1) and again, after the whole case stream, at >= T+7 s on the SAME verifier and on a new one (phase 2); for these cases only, the clock margin is relaxed from 60 s to >= 1.5 s (phase 1) / >= 3 s (phase 2); they test that verdicts follow the real clock over a verifier's lifetime, not boundaries; a case whose margin was lost to a stall is skipped and counted.", len(ll))
 	return nil
 }
